@@ -19,6 +19,10 @@ CHECKS = {
    technique="TLA+ grammar spec (Grammar.tla: declarative derivability + recursive-descent lexer model) checked by TLC; TLC-enumerated lexeme sequences, grammar-derived templates with all single-edit mutants and rule-level cases registered on real muxes; trace validated by TLC against RegTrace.tla and RouterTrace.tla",
    text="TLC checks for every lexeme sequence up to a length bound that the lexer design accepts exactly the documented grammar; every generated template / mutant / rule case / name shape is registered on a fresh real Mux (empty or with a base service) under recover(), and TLC classifies each from the grammar (must-accept / must-reject / unspecified) and judges the observed outcome: valid accepted and then routed, invalid rejected with an error, no panic, base routes behave identically before and after.",
    note="Unspecified (accept or reject, never crash): nested variables, '**' not last, digit-first words, message-typed variables, duplicate fields, '*'-kind overlaps and re-declared implicit paths. " + TB),
+ "C19": dict(engine="Selector", level="model_checking", design="3.2, 6/C19",
+   technique="TLA+ Selector spec (Covers vs selector-trie mechanism) checked by TLC; TLC-enumerated selector sets x target methods on real muxes validated against SelectorTrace.tla; config-vs-annotation equivalence as a RouterTrace formula over the Router pipeline; healthz state machine validated against the real grpc health server",
+   text="TLC checks the selector trie design against Covers for all selector sets/names in scope (negative config must fail); every TLC-generated selector set is installed with ServiceConfigOption on real muxes for six target methods (sibling names, nested packages) and TLC judges bound <=> Covers; the same rule declared by config and by annotation must answer every derived request identically; /v1/healthz must report exactly the statuses set on the health server for seeded Set/Check sequences.",
+   note="Selector sets <=2 (quick) / <=3 (thorough); malformed selectors unspecified; WebSocket Watch not covered. " + TB),
 }
 
 NOT_YET = {}
